@@ -51,7 +51,8 @@ CHECKS = {
         text="frontend::parse goes through IndexedQuery::try_from on every success path; the indexer is abstractly evaluated "
              "on a well-formed two-component query and on one malformed variant per structural invariant (18 variants), each "
              "rejected with its own code; id generators advance in lockstep (+1 from 1, root vid unpaired); complete decision "
-             "table of TagHandler::reference_tag (48 path/order cases incl. import level); begin/end_subcomponent pairing; "
+             "table of TagHandler::reference_tag (224 cases: defining / using path x order x property tag or fold-count tag - "
+             "defined from the fold's root vertex on - x tag already used elsewhere, incl. import level); begin/end_subcomponent pairing; "
              "variable collection sources; the tag table is evaluated with and without the tag already used elsewhere (history "
              "independence); the two component stacks (ComponentPath, tag handler) are advanced and unwound in lockstep with no early "
              "exit between; fill_in_query_variables is evaluated with one variable used at two places (two vertices, vertex + "
@@ -66,7 +67,9 @@ CHECKS = {
         text="Narrow: complete table of the output-type wrapper (optional -> nullable; one list per enclosing fold, outermost "
              "first, list nullable iff that fold is under @optional) by abstract evaluation; optional-vertex closure over "
              "component shapes; push/recursive-call/pop pairing of the fold-optional stack; fold count declared Int! and "
-             "produced as Uint64(len), null only for non-existent folds; engine and indexer read the same output sources. "
+             "produced as Uint64(len), null only for non-existent folds; engine and indexer read the same output sources; "
+             "decision table of the context suspension methods (suspending is idempotent, un-suspending restores the saved vertex, "
+             "nothing else changes) - the vertex a suspended context is restored to is what its outputs are read from. "
              "Not decided: validity of adapter-supplied values.",
         note="trusted: Type model (C17), collection model",
         technique="static analysis: abstract interpretation of indexer helpers + pairing / footprint rules",
@@ -126,8 +129,10 @@ CHECKS = {
              "replaying reader accepts (the readers end in `_ => unreachable!()`, so rustc does not check this); the recording "
              "closures return the inner adapter's items unchanged; every replay reader buffers pending input contexts first-in-"
              "first-out (needed when the recorded adapter had several contexts in flight); no RefMut of the tracer cell is alive "
-             "across a call into the wrapped adapter (a nested recording adapter call would panic on the second borrow). Not "
-             "decided: equality of rows.",
+             "across a call into the wrapped adapter (a nested recording adapter call would panic on the second borrow); the "
+             "two helper iterators that write AdvanceInputIterator / *IteratorExhausted are evaluated with an effect counter: the "
+             "action runs exactly at the pull that calls for it, and nothing else (no Drop impl) runs it. Not decided: equality "
+             "of rows.",
         note="trusted: Iterator::inspect/map semantics; serde round-trip of the trace (C16)",
         technique="static analysis: ADT mirror comparison + writer/reader variant-set agreement over typed HIR",
         design_ref="DESIGN.md section 4 C15"),
@@ -138,7 +143,9 @@ CHECKS = {
              "deserializes via Type::parse; TransparentValue is untagged and tries Null, Int64, Uint64, Float64 in that order; "
              "FieldValue <-> TransparentValue are identities on variants and payloads; Display(Type) is the GraphQL text and "
              "Type::parse(Display(t)) == t for every list depth 0..30 (both interpreted on the real bit-mask representation, "
-             "async-graphql-parser's Type::new modelled from its source). Not decided: serde/serde_json/ron themselves.",
+             "async-graphql-parser's Type::new modelled from its source); the equality the round trip is judged by is numeric on "
+             "integers, also inside lists (the untagged form does not keep Int64 vs Uint64; C08 r5/r7 re-evaluated). Not decided: "
+             "serde/serde_json/ron themselves.",
         note="trusted: serde's derive semantics as seen in its expansion; std Default impls",
         technique="static analysis: facts extracted from expanded derive code in typed HIR + variant tables",
         design_ref="DESIGN.md section 4 C16"),
@@ -201,7 +208,8 @@ CHECKS = {
              "overflow checks) in functions reachable (MIR call graph, closures included) from interpret_ir and from the hint API "
              "an adapter may call during execution must carry an audit entry (function, construct, count -> class + reason) or be a "
              "listed known finding; an unaudited or additional site is a violation. The guards the audit leans on are checked "
-             "structurally: arguments validated before the first adapter call (G-ARGS), carrier bracket discipline (C02 r1/r3), "
+             "structurally: arguments validated before the first adapter call (G-ARGS) and validation admits exactly the values of "
+             "the variable's type (G-ARGS-TABLE: C12 r1/r2 re-evaluated), carrier bracket discipline (C02 r1/r3), "
              "operand types validated by the frontend (G-OPTYPES). Decides that the reachable set equals the audited set and that "
              "guards are in place, not that every audited reason is true for all inputs. The comparison functions' own panic sites "
              "are discharged semantically: evaluated on every operand pair the frontend admits (null on either side included) they "
